@@ -112,8 +112,42 @@ func checkElementRepresentation(res *Result, S *Streams, pm *PropModel, rule str
 			continue
 		}
 		x := strings.TrimPrefix(name, "("+en+").Set")
-		if x == "Type" || x == "Language" {
-			continue // SetType dispatches to the typed setters; SetLanguage edits the map member in place
+		if x == "Language" {
+			// SetLanguage edits the language map in place; every OTHER representation (the other
+			// members' flags, iri, unknown) is reset first, so that exactly one kind is set afterwards
+			callsClear := false
+			assigned := map[*types.Var]bool{}
+			for _, st := range fd.Body.List {
+				switch y := st.(type) {
+				case *ast.ExprStmt:
+					if c, ok := y.X.(*ast.CallExpr); ok {
+						if sel, ok := c.Fun.(*ast.SelectorExpr); ok && isIdentNamed(sel.X, "this") && (sel.Sel.Name == "clear" || sel.Sel.Name == "Clear") {
+							callsClear = true
+						}
+					}
+				case *ast.AssignStmt:
+					if len(y.Lhs) == 1 && len(y.Rhs) == 1 && isZeroExpr(y.Rhs[0]) {
+						if fv := thisField(info, y.Lhs[0]); fv != nil {
+							assigned[fv] = true
+						}
+					}
+				}
+			}
+			var left []string
+			for f := range zeroed {
+				if m := pm.memberByField[f]; m != nil && m.Lit == "langString" {
+					continue
+				}
+				if !callsClear && !assigned[f] {
+					left = append(left, f.Name())
+				}
+			}
+			sort.Strings(left)
+			res.check(len(left) == 0, rule, fn, S.pos(fd), "SetLanguage resets every other representation before it writes the language map", "not reset: "+strings.Join(left, ", ")+" — a value of that kind set earlier is still reported alongside the language map (two kinds at once)")
+			continue
+		}
+		if x == "Type" {
+			continue // SetType dispatches to the typed setters (C18-R4)
 		}
 		nSet++
 		okClear := false
